@@ -1,11 +1,13 @@
 import OxiddModel.Util.Proto
+import OxiddModel.Bdd.Driver
 
 open OxiddModel
 
 def echoProto : Proto := { σ := Unit, init := (), step := fun s l => (s, l) }
 
 def protos : List (String × Proto) := [
-  ("echo", echoProto)
+  ("echo", echoProto),
+  ("bdd", OxiddModel.Bdd.proto)
 ]
 
 def main (args : List String) : IO UInt32 := do
